@@ -13,7 +13,7 @@ from tqdm import tqdm
 
 import neuroglancer_scripts.accessor
 import neuroglancer_scripts.chunk_encoding
-from neuroglancer_scripts import data_types, precomputed_io
+from neuroglancer_scripts import data_types, precomputed_io, sharded_base
 
 logger = logging.getLogger(__name__)
 
@@ -65,8 +65,13 @@ def convert_chunks(source_url, dest_url, copy_info=False,
     )
     chunk_reader = precomputed_io.get_IO_for_existing_dataset(source_accessor)
     source_info = chunk_reader.info
+    dest_options = dict(options)
+    if copy_info and sharded_base.ShardedAccessorBase.info_is_sharded(
+            source_info):
+        # the copied info declares sharding: the chunks must be stored that way
+        dest_options["sharding"] = True
     dest_accessor = neuroglancer_scripts.accessor.get_accessor_for_url(
-        dest_url, options
+        dest_url, dest_options
     )
     if copy_info:
         chunk_writer = precomputed_io.get_IO_for_new_dataset(
